@@ -31,7 +31,7 @@ fn parse_atoms(s: &str) -> Vec<Atom> {
 
 /// a pattern with a literal prefix of `plen` bytes over `alpha`, transparent atoms sprinkled in, and a tail;
 /// returns the atoms and one byte string that satisfies them (None where any byte does)
-fn gen_pattern(rng: &mut Rng, plen: usize, alpha: &[u8]) -> (Vec<Atom>, Vec<Option<u8>>) {
+fn gen_pattern(rng: &mut Rng, plen: usize, alpha: &[u8], pe64: bool, base: u64) -> (Vec<Atom>, Vec<Option<u8>>) {
 	let mut atoms = Vec::new();
 	let mut real: Vec<Option<u8>> = Vec::new();
 	let mut slot = 1u8;
@@ -50,8 +50,23 @@ fn gen_pattern(rng: &mut Rng, plen: usize, alpha: &[u8]) -> (Vec<Atom>, Vec<Opti
 		real.push(Some(b));
 	}
 	// what ends the prefix
-	match rng.below(10) {
+	match rng.below(11) {
 		0 | 1 | 2 => {},
+		10 => { // an absolute pointer behind the prefix: followed (and returned from) when it is a VA inside the image.
+			// Half of the planted values are NOT such pointers: the high dword is off by a multiple of 2^32 (PE32+), or the
+			// value lies below the base / beyond SizeOfImage - a translation that compares a truncated difference accepts them
+			atoms.push(Atom::Push(0)); atoms.push(Atom::Ptr); atoms.push(Atom::Save(slot)); slot += 1; atoms.push(Atom::Pop);
+			let good = base.wrapping_add(0x1000 + rng.below(0x40));
+			let v: u64 = match rng.below(6) {
+				0 | 1 | 2 => good,
+				3 if pe64 => good.wrapping_add((1 + rng.below(3)) << 32),
+				4 if pe64 => good.wrapping_sub(1 << 32),
+				3 | 4 => base.wrapping_sub(0x10),
+				_ => base.wrapping_add(0x7000_0000),
+			};
+			let bytes = if pe64 { v.to_le_bytes().to_vec() } else { (v as u32).to_le_bytes().to_vec() };
+			for b in bytes { real.push(Some(b)); }
+		},
 		3 | 4 => { // a wildcard and more literal bytes
 			let k = rng.range(1, 3) as u8;
 			atoms.push(Atom::Skip(k));
@@ -102,7 +117,7 @@ fn gen(rng: &mut Rng, i: u64) -> String {
 	let na = rng.range(1, 4) as usize;
 	let alpha: Vec<u8> = (0..na).map(|_| *rng.pick(&alpha_all)).collect();
 	let plen = match rng.below(12) { 0 | 1 => 0, 2 => 1, 3 => 2, 4 => 3, 5 | 6 => 4, 7 => rng.range(5, 9) as usize, 8 => 15, 9 => 16, 10 => 17, _ => rng.range(4, 20) as usize };
-	let (atoms, real) = gen_pattern(rng, plen, &alpha);
+	let (atoms, real) = gen_pattern(rng, plen, &alpha, pe64, spec.image_base);
 	let qslen = plen.min(16);
 
 	// ---- sections
